@@ -388,6 +388,7 @@ func runCase(n int, cfg Cfg, qm int, alter *Alter, cs condSpec, pts []Point, tmi
 		gid uint64
 	}
 	seen := map[rk]uint64{}
+	seenAt := map[rk]int{}
 	for i := range pts {
 		p := &pts[i]
 		if p.Err != "" {
@@ -410,9 +411,10 @@ func runCase(n int, cfg Cfg, qm int, alter *Alter, cs condSpec, pts []Point, tmi
 		}
 		k := rk{p.M, sb.String(), p.GID}
 		if prev, ok := seen[k]; ok && prev != p.SID {
-			c.Oracle = append(c.Oracle, fmt.Sprintf("route: point %d: measurement %s shard key %q in group %d went to shards %d and %d", i, cfg.Msts[p.M].Mst, k.key, p.GID, prev, p.SID))
+			c.Oracle = append(c.Oracle, fmt.Sprintf("samekey: points %d %d : measurement %s shard key %q in group %d went to shards %d and %d", seenAt[k], i, cfg.Msts[p.M].Mst, k.key, p.GID, prev, p.SID))
 		}
 		seen[k] = p.SID
+		seenAt[k] = i
 	}
 
 	// ---- read side, measurement qm
